@@ -61,11 +61,12 @@ Definition rout_eqb (a : outcome cst) (b : outcome rview) : bool :=
   end.
 
 (* recorded answers of Series.reindex and of the casting assignment (oracle tables for the mixin) *)
-Definition sr_key := (list cell * option string * pyval)%type.
-Fixpoint sr_lookup (d : list cell) (m : option string) (v : pyval) (t : list (sr_key * outcome (list cell))) : outcome (list cell) :=
+Definition sr_key := (dtype * list cell * option string * pyval)%type.
+Fixpoint sr_lookup (dt : dtype) (d : list cell) (m : option string) (v : pyval) (t : list (sr_key * outcome (list cell))) : outcome (list cell) :=
   match t with
   | [] => Raise OtherError
-  | ((d', m', v'), r) :: rest => if cells_eqb d d' && ostr_eqb m m' && pyval_eqb v v' then r else sr_lookup d m v rest
+  | ((dt', d', m', v'), r) :: rest =>
+      if dtype_eqb dt dt' && cells_eqb d d' && ostr_eqb m m' && pyval_eqb v v' then r else sr_lookup dt d m v rest
   end.
 Fixpoint ac_lookup (dt : dtype) (d : list cell) (t : list ((dtype * list cell) * outcome (list cell))) : outcome (list cell) :=
   match t with
@@ -94,7 +95,7 @@ Definition run_rcase (c : rcase) : outcome cst :=
   | RContainer => reindex_M gl ct cast_tbl st (r_new c) 1 (r_fill c) (r_strictarg c) (r_fills c) 1000
   | RModel => model_reindex_M gl ct cast_tbl st (r_new c) 1 (r_fill c) (r_strictarg c) (r_fills c) 1000
   | RPandas names method l1 l2 l3 l4 l5 srt act =>
-      pandas_reindex_M gl ct cast_tbl (fun _ d _ m v => sr_lookup d m v srt) (fun dt d => ac_lookup dt d act)
+      pandas_reindex_M gl ct cast_tbl (fun _ dt d _ m v => sr_lookup dt d m v srt) (fun dt d => ac_lookup dt d act)
                        st names (r_new c) 1 method (r_fill c) (r_strictarg c) (r_fills c) l1 l2 l3 l4 l5 1000
   end.
 Definition check_rcase (c : rcase) : bool := rout_eqb (run_rcase c) (r_exp c).
